@@ -147,6 +147,7 @@ structure ImplObs where
   outcome : Outcome
   changed : Bool
   leak : Nat
+  inv : Nat := 0
 
 def kvOf (ws : List String) (key : String) : Option String :=
   ws.findSome? fun w => if w.startsWith (key ++ "=") then some (w.drop (key.length + 1)).toString else none
@@ -157,7 +158,8 @@ def parseImpl (post : List String) : Option ImplObs :=
     let oc ← Outcome.ofName? o
     let chg ← kvOf rest "chg"
     let leak ← (kvOf rest "leak") >>= parseNat?
-    pure { outcome := oc, changed := chg != "---", leak := leak }
+    let inv := ((kvOf rest "inv") >>= parseNat?).getD 0
+    pure { outcome := oc, changed := chg != "---", leak := leak, inv := inv }
   | _ => none
 
 structure DSt where
@@ -176,6 +178,8 @@ structure DSt where
   specfails : Nat := 0
   tableChecked : Nat := 0
   crashes : Nat := 0
+  kindDiff : Nat := 0
+  unsafeInvoked : Nat := 0
 
 def tally (d : DSt) (io : ImplObs) : DSt :=
   let d := match io.outcome with
@@ -196,11 +200,17 @@ def report (d : DSt) (n : Nat) (kind : OpKind) (flagged : Bool) (io : ImplObs)
     if mc != io.changed then
       IO.println s!"MISMATCH line={n} case={d.caseNo} what=changed impl={showBool io.changed} model={showBool mc}"
       d := { d with mismatches := d.mismatches + 1 }
-    else if cmpOutcome && mo != io.outcome then
+    -- value-vs-error is compared; WHICH error (sandbox / hidden / other) is classified from message texts by the
+    -- harness and therefore only counted, so that rewording a message cannot raise an alarm
+    else if cmpOutcome && ((mo == .ok) != (io.outcome == .ok)) then
       IO.println s!"MISMATCH line={n} case={d.caseNo} what=outcome impl={io.outcome.name} model={mo.name}"
       d := { d with mismatches := d.mismatches + 1 }
+    else if cmpOutcome && mo != io.outcome then
+      d := { d with kindDiff := d.kindDiff + 1 }
   | none => pure ()
-  let obs : Obs := { kind := kind, flagged := flagged, outcome := io.outcome, changed := io.changed, leak := io.leak != 0 }
+  let obs : Obs := { kind := kind, flagged := flagged, outcome := io.outcome, changed := io.changed, leak := io.leak != 0,
+                     unsafeInvoked := io.inv != 0 }
+  if io.inv != 0 then d := { d with unsafeInvoked := d.unsafeInvoked + 1 }
   match specStep obs with
   | some cl =>
     let extra := if cl == .noLeak then s!" leak={io.leak}" else ""
@@ -281,4 +291,4 @@ def handle (d : DSt) (n : Nat) (line : String) : IO DSt := do
 def main : IO Unit := do
   let stdin ← IO.getStdin
   let d ← foldLines stdin handle ({} : DSt)
-  IO.println s!"STATS cases={d.caseNo} steps={d.caseNo} programs={d.programs} natives={d.natives} fields={d.fields} ok={d.nOk} sandbox={d.nSandbox} hidden={d.nHidden} err={d.nErr} changed={d.changed} leaks={d.leaks} nontrivial={d.nontrivial} table_checked={d.tableChecked} crashes={d.crashes} mismatches={d.mismatches} specfails={d.specfails}"
+  IO.println s!"STATS cases={d.caseNo} steps={d.caseNo} programs={d.programs} natives={d.natives} fields={d.fields} ok={d.nOk} sandbox={d.nSandbox} hidden={d.nHidden} err={d.nErr} changed={d.changed} leaks={d.leaks} nontrivial={d.nontrivial} table_checked={d.tableChecked} crashes={d.crashes} unsafe_invoked={d.unsafeInvoked} error_kind_diff={d.kindDiff} mismatches={d.mismatches} specfails={d.specfails}"
